@@ -224,6 +224,101 @@ def normalize_file(src, dst):
     return n
 
 
+# ---------------------------------------------------------------- master-side traces
+
+def norm_mcfg(c):
+    c = c or {}
+    out = []
+    for a in c.get("assocs", []):
+        def anyb(v, d):
+            return any(v) if isinstance(v, list) else d
+        out.append({"addr": a.get("addr", 1024), "rt": a.get("response_timeout", 1000),
+                    "dis": anyb(a.get("disable_unsol"), True), "integ": anyb(a.get("integrity"), True),
+                    "en": anyb(a.get("enable_unsol"), True), "tsync": a.get("auto_time_sync") or "",
+                    "rmin": a.get("retry_min", 1000), "rmax": a.get("retry_max", 10000),
+                    "ka": -1 if a.get("keep_alive") is None else a["keep_alive"],
+                    "ovfInteg": a.get("integrity_on_overflow", True), "evscan": anyb(a.get("event_scan"), False),
+                    "maxq": a.get("max_queue", 16)})
+    return {"maddr": c.get("maddr", 1), "assocs": out, "enabled": c.get("enabled", True)}
+
+
+def norm_mcb(c):
+    t, k, n = c[0], c[1], c[2]
+    if k == "rh" and n == "item":
+        # [t, rh, item, assoc, ty, g, v, ix, val, fl, tm, tq, is_event]
+        return {"t": t, "k": k, "n": n, "i": [c[3], c[5], c[6], c[7], c[9], 1 if c[12] else 0],
+                "s": "%s|%s|%s|%s" % (c[4], s(c[8]), s(c[10]), c[11])}
+    return norm_cb(c)
+
+
+def body_class(r, f):
+    tag = r.get("tag") or {}
+    if isinstance(tag, dict) and tag.get("body"):
+        return tag["body"]
+    if not f.get("wf", True):
+        return "bad"
+    return "data" if f.get("hdrs") else "empty"
+
+
+def norm_mline(r, cfg):
+    k = r.get("k", "")
+    e = {"k": k, "t": r.get("t", 0)}
+    if k == "reset":
+        e["id"] = s(r.get("id"))
+        e["cfg"] = cfg
+        return e
+    if k in ("dead", "hang", "bad_scenario", "crash"):
+        return e
+    e["tx"] = [{"t": x.get("t", 0), "fc": x.get("fc", -1), "seq": x.get("seq", -1), "fir": bool(x.get("fir")),
+                "fin": bool(x.get("fin")), "con": bool(x.get("con")), "uns": bool(x.get("uns")),
+                "dst": x.get("dst", -1), "bid": x.get("bid", 0), "obid": x.get("obid", 0),
+                "nobj": len(x.get("objs", [])), "wf": bool(x.get("wf", True)),
+                "hdrs": [norm_hdr(h) for h in x.get("hdrs", [])]} for x in r.get("tx", [])]
+    e["ltx"] = [{"t": x["t"], "fn": x["fn"], "dst": x["dst"]} for x in r.get("ltx", [])]
+    e["cb"] = [norm_mcb(c) for c in r.get("cb", [])]
+    e["done"] = [{"t": d[0], "id": d[1] if isinstance(d[1], int) else -1, "res": s(d[2])} for d in r.get("done", [])]
+    e["panic"] = "panic" in r
+    e["ended"] = bool(r.get("ended"))
+    e["sess"] = [x[1].split(":")[0] for x in r.get("sess", [])]
+    if k == "adv":
+        e["dt"] = r.get("dt", 0)
+    elif k == "req":
+        objs = r.get("objs") or []
+        e["req"] = {"id": r.get("id", 0), "a": r.get("assoc", cfg["assocs"][0]["addr"] if cfg["assocs"] else 1024),
+                    "kind": r.get("kind", ""), "mode": r.get("mode", ""), "nobj": len(objs),
+                    "ob": (r.get("tag") or {}).get("ob", ""), "pid": r.get("pid", 0), "period": r.get("period", 0),
+                    "proc": r.get("proc", "")}
+    elif k == "rx":
+        f = r.get("frag", {})
+        e["rx"] = {"fc": f.get("fc", -2), "seq": f.get("seq", -1), "fir": bool(f.get("fir")), "fin": bool(f.get("fin")),
+                   "con": bool(f.get("con")), "uns": bool(f.get("uns")), "src": r.get("src", -1),
+                   "iin": norm_iin(f.get("iin")), "body": body_class(r, f), "hash": f.get("obid", 0),
+                   "bid": f.get("bid", 0), "wf": bool(f.get("wf", True)), "noconn": bool(r.get("noconn")),
+                   "items": [{"g": o.get("g", -1), "v": o.get("v", -1), "ix": o.get("ix", -1) if isinstance(o.get("ix", -1), int) else -1,
+                              "ty": o.get("ty", "")} for o in f.get("objs", []) if o.get("ty")]}
+    elif k == "lrx":
+        e["k"] = "rx"
+        e["rx"] = {"fc": -1, "seq": 0, "fir": True, "fin": True, "con": False, "uns": False, "src": r.get("src", 1024),
+                   "iin": norm_iin({}), "body": "link", "hash": 0, "bid": 0, "wf": True, "noconn": False, "items": []}
+    return e
+
+
+def normalize_master_file(src, dst):
+    cfg = norm_mcfg({})
+    n = 0
+    with open(src) as fi, open(dst, "w") as fo:
+        for line in fi:
+            line = line.strip()
+            if not line:
+                continue
+            r = json.loads(line)
+            if r.get("k") == "reset":
+                cfg = norm_mcfg(r.get("cfg"))
+            fo.write(json.dumps(norm_mline(r, cfg), separators=(",", ":")) + "\n")
+            n += 1
+    return n
+
+
 def normalize_link_file(src, dst):
     """link-level traces: nearly pass-through; the reset line carries kinds / stream from the scenario meta"""
     n = 0
